@@ -47,6 +47,17 @@ def decl_menu():
         out.append(("decl/string/%s" % t, "char s[] = \"hi\"; char *q = \"yo\"; %s f(void){ return (%s)(s[0] + q[1]); }" % (t, t)))
         out.append(("decl/union/%s" % t, "union U { %s v; char c[8]; } u = { 1 }; %s f(void){ return u.v; }" % (t, t)))
         out.append(("decl/extern-tentative/%s" % t, "extern %s e; %s e; %s e = 3; %s f(void){ return e; }" % (t, t, t, t)))
+    # pointer and enum objects with static storage initialised from integer constants over the range boundaries
+    for i in ["0", "1", "-1", "-4096", "300", "2147483648", "4294967295", "0xFFFFFFFF", "-2147483649", "18446744073709551615u", "(1 ? -2 : 3)"]:
+        out.append(("decl/pointer-from-int/global", "char *p = (char *)%s; long f(void){ return (long)p; }" % i))
+        out.append(("decl/pointer-from-int/void", "void *p = (void *)%s; long f(void){ return (long)p; }" % i))
+        out.append(("decl/pointer-from-int/static-local", "long f(void){ static int *p = (int *)%s; return (long)p; }" % i))
+        out.append(("decl/pointer-from-int/struct-member", "struct S { int n; char *p; } s = { 1, (char *)%s }; long f(void){ return (long)s.p; }" % i))
+        out.append(("decl/pointer-from-int/array", "char *a[2] = { (char *)%s, 0 }; long f(void){ return (long)a[0]; }" % i))
+        out.append(("decl/enum-from-int/global", "enum E { A, B }; enum E e = %s; long f(void){ return (long)e; }" % i))
+        out.append(("decl/enum-from-int/static-local", "enum E { A, B }; long f(void){ static enum E e = %s; return (long)e; }" % i))
+        out.append(("decl/enum-from-int/struct-member", "enum E { A, B }; struct S { enum E e; int n; } s = { %s, 2 }; long f(void){ return (long)s.e; }" % i))
+        out.append(("decl/enum-from-int/array", "enum E { A, B }; enum E a[2] = { %s }; long f(void){ return (long)a[0]; }" % i))
     out.append(("decl/bool", "_Bool b = 1; int f(void){ return b; }"))
     out.append(("decl/compound-literal", "struct P { int x; int y; }; int f(void){ struct P p = (struct P){1, 2}; return p.x + p.y; }"))
     out.append(("decl/vla-free", "int f(int n){ int a[4]; int i; for (i = 0; i < 4; i++) a[i] = n; return a[3]; }"))
@@ -143,7 +154,11 @@ def ir_worker(p, shard):
     for ident in shard:
         p.add()
         try:
-            m = pg.make(ident)
+            if ident["fam"] in ("xc", "copt", "py", "c3", "bf", "feat"):
+                from vf.checks import c15
+                m = c15.make(ident)
+            else:
+                m = pg.make(ident)
             f = io.StringIO()
             print_module(m, file=f)
             text = f.getvalue()
@@ -154,6 +169,8 @@ def ir_worker(p, shard):
             with cpu_limit(20):
                 m2 = read_module(io.StringIO(text))
                 verify_module(m2)
+                from ppci.api import optimize
+                optimize(m2, level="2")
         except CpuTimeout:
             p.violation("irtext/cpu-timeout", "read_module did not finish", {"kind": "ir", "ident": ident})
         except Exception as ex:  # noqa
@@ -198,6 +215,9 @@ def run(ctx):
         c3 = c3[ctx.seed % 2::2]
     ctx.note("c3_programs", len(c3))
     irs = pg.initials(ctx.tier, ctx.seed)
+    from vf.checks import c15
+    # front-end produced modules (C, Python, C3, optimised C) and the single-feature modules of the C15 family as IR text
+    irs += [i for i in c15.families(ctx.tier, ctx.seed) if i["fam"] in ("xc", "copt", "py", "c3") or (i["fam"] == "feat" and len(i["atoms"]) == 1)]
     ctx.note("ir_text_modules", len(irs))
     ctx.sample({"c": cs[0][1]})
     ctx.sample({"c": "unsigned char g = 300; unsigned char f(void){ return g; }"})
